@@ -239,3 +239,42 @@ VDRIVE_OP(faagree)
 	res["disagree"] = disagree;
 	return res;
 }
+
+// ---------------------------------------------------------------- step-level binding of the Layer-2 model FAAntichain
+// {"op":"faantitrace","A","B"}: runs the antichain selection with the guarded step hook installed; returns the events
+// (Start with the operands as the algorithm sees them, Pick) followed by the verdict the call returned.
+#include "util/verif_hook.hh"
+namespace {
+std::vector<std::string>* g_faSink = nullptr;
+void faSink(const std::string& s) { if (g_faSink) { g_faSink->push_back(s); } }
+}
+
+VDRIVE_OP(faantitrace)
+{
+	FA a = MakeFA(c.at("A"));
+	FA b = MakeFA(c.at("B"));
+	std::vector<std::string> events;
+	g_faSink = &events;
+	VATA::Util::Verif::Sink() = faSink;
+	bool v;
+	try
+	{
+		InclParam ip;
+		ip.SetAlgorithm(InclParam::e_algorithm::antichains);
+		ip.SetUseSimulation(false);
+		v = FA::CheckInclusion(a, b, ip);
+	}
+	catch (...) { VATA::Util::Verif::Sink() = nullptr; g_faSink = nullptr; throw; }
+	VATA::Util::Verif::Sink() = nullptr;
+	g_faSink = nullptr;
+	json evs = json::array();
+	for (const std::string& s : events) { evs.push_back(json::parse(s)); }
+	json verdict;
+	verdict["e"] = "Verdict";
+	verdict["v"] = v;
+	evs.push_back(verdict);
+	json res;
+	res["events"] = evs;
+	res["v"] = v ? "T" : "F";
+	return res;
+}
